@@ -260,7 +260,9 @@ func (x *Exec) evalBuiltin(name string, n *ast.CallExpr, st *State) (Val, *State
 			if len(n.Args) > 1 {
 				_, st = x.eval(n.Args[1], st)
 			}
-			return c.zeroVal(t, nil), st
+			mv := c.zeroVal(t, nil).(Mp)
+			mv.Nil = tFalse
+			return mv, st
 		}
 		panic(unsupported("make of %s", typeName(t)))
 	case "append":
@@ -274,7 +276,7 @@ func (x *Exec) evalBuiltin(name string, n *ast.CallExpr, st *State) (Val, *State
 		m := mv.(Mp)
 		k := encodeKey(kv)
 		had := tSel(m.Has, k)
-		nm := Mp{tSto(m.Has, k, tFalse), m.Val, tIte(had, tSub(m.Len, "1"), m.Len), m.K, m.V, m.KS}
+		nm := Mp{tSto(m.Has, k, tFalse), m.Val, tIte(had, tSub(m.Len, "1"), m.Len), m.K, m.V, m.KS, m.Nil}
 		return Tup{}, x.assign(n.Args[0], nm, st)
 	case "new":
 		t := x.typeOf(n).Underlying().(*types.Pointer).Elem()
@@ -497,6 +499,9 @@ func (x *Exec) callByContract(ct *Contract, callee *types.Func, n *ast.CallExpr,
 		postNames[k] = v
 	}
 	for pname, v := range names {
+		if ct.Pure {
+			break // declared (and checked) not to change the ghost state of any object argument
+		}
 		nv, changed := x.havocObjsIn(v, "call."+short+"."+pname)
 		if changed {
 			postNames[pname] = nv
